@@ -24,8 +24,8 @@ import (
 	"verifharness/tlc"
 )
 
-const SpecDir = "/verif/specs/remote"
-const TaskBin = "/verif/.work/bin/task"
+var SpecDir = rep.Root + "/specs/remote"
+var TaskBin = rep.Root + "/.work/bin/task"
 
 type Step struct {
 	Op    string   `json:"op"` // srv age inv
